@@ -19,9 +19,9 @@ type alt struct {
 
 type ectx struct {
 	nP      int
-	jsSlots []int // slots possibly saved by earlier ops
-	goSlots []int // promise variables created by goNew
-	tapped  uint32
+	jsSlots []int  // slots possibly saved by earlier ops
+	goSlots []int  // promise variables created by goNew
+	tapped  uint32 // promise variables that are tapped or are aliases of another variable (Promise.resolve(pK) === pK)
 	nOps    int
 	closed  bool // previous op was a break / Go-side settle (or there is no previous op)
 }
@@ -44,6 +44,9 @@ func (c *ectx) after(a *alt) ectx {
 	}
 	if a.op.K == pm.OpTap {
 		n.tapped |= 1 << uint(a.op.P)
+	}
+	if a.op.K == pm.OpResolve && a.op.V.K == pm.VPVar {
+		n.tapped |= 1 << uint(c.nP) // an alias: tapping it would tap the original a second time
 	}
 	n.closed = a.op.K == pm.OpBreak || a.op.K == pm.OpGoSettle
 	return n
